@@ -6,6 +6,7 @@ import (
 	"encoding/json"
 	"fmt"
 	"os"
+	"runtime"
 	"strings"
 
 	"pault.ag/go/debian/verifhook"
@@ -139,9 +140,15 @@ func compare(scen string, in SchedIn, want, got [][]Result) *mc.Violation {
 func threadPrograms(quick bool) [][][]call {
 	var out [][][]call
 	for _, ep := range EntryPoints {
-		var valid []string
+		var valid, failing []string
 		for _, s := range seeds[ep.Name] {
-			if s != "" {
+			if s == "" {
+				continue
+			}
+			var res Result
+			if p, _ := mc.Guard(func() { res = ep.Call(s) }); p || res.Err {
+				failing = append(failing, s)
+			} else {
 				valid = append(valid, s)
 			}
 		}
@@ -151,6 +158,11 @@ func threadPrograms(quick bool) [][][]call {
 		// two threads, one call each, on the two richest seeds; and one thread doing two calls against another doing one
 		out = append(out, [][]call{{{ep.Name, valid[0]}}, {{ep.Name, valid[1]}}})
 		out = append(out, [][]call{{{ep.Name, valid[0]}, {ep.Name, valid[1]}}, {{ep.Name, valid[1]}}})
+		// every error path first (state left behind by a failed call), then two threads on valid inputs
+		last := valid[len(valid)-1]
+		for _, f := range failing {
+			out = append(out, [][]call{{{ep.Name, f}, {ep.Name, valid[1]}}, {{ep.Name, last}}})
+		}
 		if !quick && len(valid) >= 3 {
 			out = append(out, [][]call{{{ep.Name, valid[0]}}, {{ep.Name, valid[1]}}, {{ep.Name, valid[2]}}})
 		}
@@ -175,6 +187,10 @@ func runSchedules(r *mc.Run) {
 		}
 	}
 	r.Extra["instrumentation"] = sites
+	// one P while schedules are explored: sync.Pool and similar per-P runtime structures then behave the same in every
+	// execution, so a replayed choice vector reaches the same scheduling points
+	oldProcs := runtime.GOMAXPROCS(1)
+	defer runtime.GOMAXPROCS(oldProcs)
 	// executions of one scenario are sequential (one scheduler), scenarios run in parallel
 	r.Scenario("schedules-preemption-bounded", map[string]interface{}{"thread_programs": len(progs), "preemption_bound": 2, "execution_cap_per_program": schedCap}, len(progs), func(i int, st *mc.Stats) bool {
 		threads := progs[i]
@@ -198,6 +214,7 @@ func runSchedules(r *mc.Run) {
 			if v := compare("schedules-preemption-bounded", in, want, got); v != nil {
 				st.Violate(v)
 				st.Class("differs-from-sequential")
+				capped = true // a counterexample schedule for this program is enough; the remaining schedules are not executed
 			} else {
 				st.Class("equals-sequential")
 			}
@@ -213,7 +230,7 @@ func runSchedules(r *mc.Run) {
 		if div != "" {
 			st.Violate(mc.V("schedules-preemption-bounded", "replay-is-deterministic", SchedIn{threads, nil}, "the same choices reach the same scheduling points", div))
 		}
-		return !capped
+		return true
 	})
 }
 
